@@ -13,3 +13,7 @@ TECHNIQUE = "contract-based deductive verification (VCs from the ast of the real
 UNITS = [D.unit_dataformat_init(), D.unit_set_property(), D.unit_validate(), D.unit_validated_character(), D.unit_character_spellings()]
 from contracts import ranges as R
 UNITS += [R.unit_code_for_string_token()]
+from contracts import interface as IF
+UNITS += [IF.unit_add_data_format_row().also("C11")]
+from props import _groups as _G
+UNITS = _G.with_groups(PROPERTY, UNITS, _G.CID)
